@@ -16,6 +16,15 @@
 #pragma once
 #include <string>
 
+// compute_fma<4,double,Q,true> uses _mm256_fmadd_pd whenever the AVX2 bit is set, i.e. also under -mavx2 without -mfma,
+// where it does not compile (nor do aligned dmat3*dmat3 / dmat4*dmat4, which call glm::fma); the tracer (C03_TRACING)
+// records what glm would execute
+#if !(GLM_ARCH & GLM_ARCH_AVX2_BIT) || defined(__FMA__) || defined(C03_TRACING)
+#  define C03_DFMA_OK 1
+#else
+#  define C03_DFMA_OK 0
+#endif
+
 namespace c03 {
 using glm::qualifier;
 template<qualifier Q> struct QT { static constexpr qualifier value = Q; };
@@ -101,7 +110,10 @@ template<int L, class F, class R> void vec_geom(R& r, std::string const& pre = "
 }
 
 template<class F, class R> void matrix_ops(R& r, std::string const& pre = "") {
+  if constexpr (sizeof(F) == 4 || C03_DFMA_OK) {
   r.template fam<F>(pre + "mat4_mul", 32, 16, [](F const* x, F* o, auto q) { C03_Q; stm4<Q>(o, ldm4<Q>(x) * ldm4<Q>(x + 16)); });
+  r.template fam<F>(pre + "mat3_mul", 18, 9, [](F const* x, F* o, auto q) { C03_Q; stm3<Q>(o, ldm3<Q>(x) * ldm3<Q>(x + 9)); });
+  }
   r.template fam<F>(pre + "mat4_mulv", 20, 4, [](F const* x, F* o, auto q) { C03_Q; st<4, Q>(o, ldm4<Q>(x) * ld<4, Q>(x + 16)); });
   r.template fam<F>(pre + "mat4_vmul", 20, 4, [](F const* x, F* o, auto q) { C03_Q; st<4, Q>(o, ld<4, Q>(x) * ldm4<Q>(x + 4)); });
   r.template fam<F>(pre + "mat4_add", 32, 16, [](F const* x, F* o, auto q) { C03_Q; stm4<Q>(o, ldm4<Q>(x) + ldm4<Q>(x + 16)); });
@@ -114,7 +126,6 @@ template<class F, class R> void matrix_ops(R& r, std::string const& pre = "") {
   r.template fam_q<F>(pre + "mat4_outerProduct", 8, 16, [](F const* x, F* o, auto q) { C03_Q; stm4<Q>(o, glm::outerProduct(ld<4, Q>(x), ld<4, Q>(x + 4))); });
   r.template fam<F>(pre + "mat4_matrixCompMult", 32, 16, [](F const* x, F* o, auto q) { C03_Q; stm4<Q>(o, glm::matrixCompMult(ldm4<Q>(x), ldm4<Q>(x + 16))); });
   r.template fam<F>(pre + "mat3_transpose", 9, 9, [](F const* x, F* o, auto q) { C03_Q; stm3<Q>(o, glm::transpose(ldm3<Q>(x))); });
-  r.template fam<F>(pre + "mat3_mul", 18, 9, [](F const* x, F* o, auto q) { C03_Q; stm3<Q>(o, ldm3<Q>(x) * ldm3<Q>(x + 9)); });
   r.template fam<F>(pre + "mat3_mulv", 12, 3, [](F const* x, F* o, auto q) { C03_Q; st<3, Q>(o, ldm3<Q>(x) * ld<3, Q>(x + 9)); });
   r.template fam<F>(pre + "mat3_determinant", 9, 1, [](F const* x, F* o, auto q) { C03_Q; o[0] = glm::determinant(ldm3<Q>(x)); });
   r.template fam<F>(pre + "mat3_inverse", 9, 9, [](F const* x, F* o, auto q) { C03_Q; stm3<Q>(o, glm::inverse(ldm3<Q>(x))); });
@@ -227,7 +238,9 @@ template<class R> void all_ops(R& r) {
   matrix_ops<F>(r); quat_ops<F>(r);
   // double: the operations glm has SSE2 (2 x __m128d) / AVX (__m256d) code for, plus what is built on them (prefix d_)
   vec_arith<4, D>(r, "d_"); vec_arith<3, D>(r, "d_"); vec_geom<4, D>(r, "d_"); vec_geom<3, D>(r, "d_");
+#if C03_DFMA_OK
   r.template fam<D>("d_fma", 12, 4, [](D const* x, D* o, auto q) { C03_Q; st<4, Q>(o, glm::fma(ld<4, Q>(x), ld<4, Q>(x + 4), ld<4, Q>(x + 8))); });
+#endif
   r.template fam<D>("d_cross3", 6, 3, [](D const* x, D* o, auto q) { C03_Q; st<3, Q>(o, glm::cross(ld<3, Q>(x), ld<3, Q>(x + 3))); });
   matrix_ops<D>(r, "d_"); quat_ops_d<D>(r);
 #if GLM_ARCH & GLM_ARCH_SSE2_BIT
